@@ -170,7 +170,7 @@ func (C05) Explore(x *kernel.Explorer, seed uint64) {
 	r := kernel.NewRNG(seed, 0xc05)
 	for i := 0; i < 4 && !x.Expired(); i++ {
 		plan := &kernel.Plan{Prop: "C05", Seed: kernel.Mix(seed, uint64(i)), Swarm: map[string]int64{
-			"chunk": int64(r.Intn(4)), "ignoreparse": int64(r.Intn(2)), "chainseed": int64(r.Uint32()), "extended": int64(r.Intn(3) / 2), "mysql": int64(r.Intn(3) / 2), "depeof": int64(r.Intn(2)), "wyield": int64(r.Intn(2))}}
+			"chunk": int64(r.Intn(4)), "ignoreparse": int64(r.Intn(2)), "chainseed": int64(r.Uint32()), "extended": int64(r.Intn(3) / 2), "mysql": int64(r.Intn(3) / 2), "depeof": int64(r.Intn(2)), "wyield": int64(r.Intn(2)), "idle": int64(r.Intn(4) / 3)}}
 		n := 3 + r.Intn(8)
 		for j := 0; j < n; j++ {
 			plan.Ops = append(plan.Ops, kernel.Op{ID: j + 1, Kind: "stmt",
@@ -280,7 +280,12 @@ func (C05) Run(t *testing.T, plan *kernel.Plan, keepLog bool) *kernel.Result {
 		for i, op := range plan.Ops {
 			// a session speaks one protocol: the extended protocol is a pipeline
 			// (Parse/Bind/Execute/Sync) and is judged separately below
-			script = append(script, Stmt{SQL: c05Variant(stmts[i].canon, int(op.Arg(1, 0))), Extended: plan.Sw("extended") == 1})
+			st := Stmt{SQL: c05Variant(stmts[i].canon, int(op.Arg(1, 0))), Extended: plan.Sw("extended") == 1}
+			if plan.Sw("idle") == 1 && op.Arg(3, 0) == 0 {
+				// the session was silent for longer than the proxy's network timeout
+				st.IdleBefore = 61*time.Second + time.Duration(op.Arg(2, 0))*time.Second
+			}
+			script = append(script, st)
 		}
 		// A statement name used again: an admitted statement is prepared under a name, a rejected one is sent
 		// under the same name, then the name is executed without a new Parse. The database still holds the
@@ -346,7 +351,9 @@ func (C05) Run(t *testing.T, plan *kernel.Plan, keepLog bool) *kernel.Result {
 			if plan.Sw("extended") == 1 {
 				site += "/extended"
 			}
-			if len(run.ProxyErrs) > 0 {
+			if plan.Sw("idle") == 1 {
+				site += "/after-idle" // (which of the two proxy goroutines reports its error first is not fixed)
+			} else if len(run.ProxyErrs) > 0 {
 				site += ":" + slugText(run.ProxyErrs[0])
 			}
 			w.Violate("C05", "session-survives-rejections", site, fmt.Sprintf("stuck=%v client error %q proxy errors %v after %d deliveries", run.Stuck, run.ClientErr, run.ProxyErrs, run.Steps))
